@@ -3,6 +3,7 @@ C03 — property theorems, part 10: the in-place paths of add_array refine value
 -/
 import NV.C03.Heap
 import NV.C03.Model
+import NV.C03.Frontend
 
 namespace NV.C03.Heap
 
@@ -67,3 +68,27 @@ theorem addArray_value {R : Type} (F : NV.C03.FloatOps R) (H : Heap (NV.C03.Valu
   rw [(addArray_refines H ap ar af h).1]; rfl
 
 end NV.C03.Heap
+
+namespace NV.C03
+
+/-- bridging lemma for the regenerated rewrite conditions of grammar.y: every typed peephole rewrite (`0 + X`, `X + 0`,
+    `0 - X`, `x == 0` both ways, `if (x != 0)` both ways) fires only when the constant operand is the literal 0 AND the
+    static type of the other operand is TYPE_NUMBER - the hypothesis under which `rewrite_add_zero_sound`,
+    `rewrite_eq_zero_sound`, `rewrite_ne_zero_sound` show the rewrite to be an identity -/
+theorem rw_guards_int (zero : Bool) (ty : Nat) :
+    (NV.Gen.C03.rwAddZeroL zero ty = true → zero = true ∧ ty = NV.Gen.C03.typeNumber) ∧
+    (NV.Gen.C03.rwAddZeroR zero ty = true → zero = true ∧ ty = NV.Gen.C03.typeNumber) ∧
+    (NV.Gen.C03.rwSubZeroL zero ty = true → zero = true ∧ ty = NV.Gen.C03.typeNumber) ∧
+    (NV.Gen.C03.rwEqZeroL zero ty = true → zero = true ∧ ty = NV.Gen.C03.typeNumber) ∧
+    (NV.Gen.C03.rwEqZeroR zero ty = true → zero = true ∧ ty = NV.Gen.C03.typeNumber) ∧
+    (NV.Gen.C03.rwIfNeZeroR zero ty = true → zero = true ∧ ty = NV.Gen.C03.typeNumber) ∧
+    (NV.Gen.C03.rwIfNeZeroL zero ty = true → zero = true ∧ ty = NV.Gen.C03.typeNumber) := by
+  simp only [NV.Gen.C03.rwAddZeroL, NV.Gen.C03.rwAddZeroR, NV.Gen.C03.rwSubZeroL, NV.Gen.C03.rwEqZeroL, NV.Gen.C03.rwEqZeroR,
+    NV.Gen.C03.rwIfNeZeroR, NV.Gen.C03.rwIfNeZeroL, Bool.and_eq_true, decide_eq_true_eq]
+  exact ⟨id, id, id, id, id, id, id⟩
+
+/-- the type codes are pairwise distinct, so `tyCode t = typeNumber` means the grammar's static type IS `int` -/
+theorem tyCode_int (t : Ty) : Frontend.tyCode t = NV.Gen.C03.typeNumber ↔ t = .int := by
+  cases t <;> simp [Frontend.tyCode, NV.Gen.C03.typeNumber, NV.Gen.C03.typeReal, NV.Gen.C03.typeString, NV.Gen.C03.typeAny]
+
+end NV.C03
